@@ -36,6 +36,7 @@
   stratified semantics computed SCC by SCC, cache on and off.
 -/
 import ChalkModel.Lemmas.FixedPointMixN
+import ChalkModel.Lemmas.FixedPointMixS
 import ChalkModel.Lemmas.FixedPointSemN
 
 namespace Chalk.FixedPoint.C05mixed
@@ -256,3 +257,76 @@ end Chalk.FixedPoint.C05mixed
 #print axioms Chalk.FixedPoint.C05mixed.strata_deps_ge
 #print axioms Chalk.FixedPoint.C05mixed.strata_strat
 #print axioms Chalk.FixedPoint.C05mixed.strata_hyp
+
+/-! ## existence of the stratified truth (added later)
+
+  A stratified truth predicate exists for EVERY instance: the alternating fixed point
+  `StratP inst = ν X. μ Y. T(coinductive sub-goals from X, inductive sub-goals from Y)`
+  (`Lemmas/FixedPointMixS.lean`, `strat_stratP`; no stratification needed for existence).  Under a
+  stratification it is the only one on `dom`, so `P` need not be a hypothesis any more. -/
+
+namespace Chalk.FixedPoint.C05mixed
+open Chalk.FixedPoint.Cyc (JE JA InCache)
+open Chalk.FixedPoint.Mix
+
+/-- existence, for every instance -/
+theorem stratified_truth_exists (inst : Instance) : Strat inst (StratP inst) := strat_stratP inst
+
+/-- the hypotheses on the instance alone: `dom` closed and ground, `lvl` a stratification -/
+structure Stratified (inst : Instance) (dom : List Nat) (lvl : Nat → Nat) : Prop where
+  closed : ∀ k, k ∈ dom → ∀ alt, alt ∈ inst.deps k → ∀ j, j ∈ alt → j ∈ dom
+  ground : ∀ k, k ∈ dom → inst.ground k = true
+  lvl_le : ∀ k, k ∈ dom → ∀ alt, alt ∈ inst.deps k → ∀ j, j ∈ alt →
+    lvl j ≤ lvl k ∧ (lvl j = lvl k → inst.coind j = inst.coind k)
+
+theorem Stratified.mhyp {inst : Instance} {dom : List Nat} {lvl : Nat → Nat} (h : Stratified inst dom lvl) :
+    MHyp inst (StratP inst) dom lvl :=
+  ⟨h.closed, h.ground, strat_stratP inst, h.lvl_le⟩
+
+/-- existence and uniqueness on `dom` of the stratified truth of a stratified instance -/
+theorem stratified_truth_exists_unique (inst : Instance) (dom : List Nat) (lvl : Nat → Nat)
+    (h : Stratified inst dom lvl) :
+    Strat inst (StratP inst) ∧ ∀ P' : Nat → Prop, Strat inst P' → ∀ g, g ∈ dom → (P' g ↔ StratP inst g) :=
+  ⟨strat_stratP inst, fun P' hP' g hg =>
+    stratified_truth_unique inst P' (StratP inst) dom lvl lvl ⟨h.closed, h.ground, hP', h.lvl_le⟩ h.mhyp g hg⟩
+
+/-- `mixed_strata_correct` without the truth predicate as a hypothesis: on a stratified instance the solver
+    decides the canonical stratified truth `StratP inst` -/
+theorem mixed_strata_correct_canonical (inst : Instance) (dom : List Nat) (lvl : Nat → Nat)
+    (h : Stratified inst dom lvl) (overflowDepth rounds : Nat) (hov : dom.length ≤ overflowDepth)
+    (hr : 2 ≤ rounds) (s : St) (hq : s.oracle = [] ∧ s.oracleDefault = true)
+    (hok : ∀ k v, InCache s k v → (v = .unique ∧ StratP inst k) ∨ (v = .noSolution ∧ ¬ StratP inst k))
+    (g : Nat) (hg : g ∈ dom) :
+    ∃ v s', solveRootGoal inst (Cfg.current overflowDepth rounds) g s = .ok v s' ∧
+      (v = .unique ↔ StratP inst g) ∧ (v = .noSolution ↔ ¬ StratP inst g) ∧ v ≠ .ambig ∧
+      s'.stack = [] ∧ s'.graph = [] ∧ s'.cache.isSome = s.cache.isSome ∧
+      (∀ k w, InCache s' k w → (w = .unique ∧ StratP inst k) ∨ (w = .noSolution ∧ ¬ StratP inst k)) :=
+  mixed_strata_correct inst (StratP inst) dom lvl h.mhyp overflowDepth rounds hov hr s hq hok g hg
+
+/-- … and for histories, cache on or off -/
+theorem mixed_history_correct_canonical (inst : Instance) (dom : List Nat) (lvl : Nat → Nat)
+    (h : Stratified inst dom lvl) (cfg : Cfg) (h3 : cfg.fixF3 = true) (h7 : cfg.fixF7 = true)
+    (hov : dom.length ≤ cfg.overflowDepth) (hr : 2 ≤ cfg.rounds) (b : Bool)
+    (gs : List Nat) (hd : ∀ g, g ∈ gs → g ∈ dom) (g : Nat) (hg : g ∈ dom) :
+    ∃ v, solveOn inst cfg g (runHistory inst cfg (gs.map Call.plain) (St.fresh b)) = .value v ∧
+      (v = .unique ↔ StratP inst g) ∧ (v = .noSolution ↔ ¬ StratP inst g) :=
+  mixed_history_correct inst (StratP inst) dom lvl h.mhyp cfg h3 h7 hov hr b gs hd g hg
+
+/-- `strata` is stratified, and its canonical truth is the one given by hand -/
+theorem strata_stratified : Stratified strata [0, 1, 2, 3, 4, 5] strataLvl :=
+  ⟨by decide, by decide, by decide⟩
+
+example : StratP strata 5 ∧ ¬ StratP strata 0 := by
+  have h := (stratified_truth_exists_unique strata _ strataLvl strata_stratified).2 strataP strata_strat
+  exact ⟨(h 5 (by decide)).mp (by simp [strataP]), fun h0 => by
+    have := (h 0 (by decide)).mpr h0
+    simp [strataP] at this⟩
+
+end Chalk.FixedPoint.C05mixed
+
+#print axioms Chalk.FixedPoint.C05mixed.stratified_truth_exists
+#print axioms Chalk.FixedPoint.C05mixed.Stratified.mhyp
+#print axioms Chalk.FixedPoint.C05mixed.stratified_truth_exists_unique
+#print axioms Chalk.FixedPoint.C05mixed.mixed_strata_correct_canonical
+#print axioms Chalk.FixedPoint.C05mixed.mixed_history_correct_canonical
+#print axioms Chalk.FixedPoint.C05mixed.strata_stratified
